@@ -25,3 +25,13 @@ func VerifBuildNodes(config Config) error {
 	p := NewProxy(nil, config)
 	return p.buildNodes()
 }
+
+// VerifSetWriteConsistencyOverride fills the unsupported-write-consistency settings of a
+// Config (their element type is unexported).
+func VerifSetWriteConsistencyOverride(config *Config, unsupported []primitive.ConsistencyLevel, override primitive.ConsistencyLevel) {
+	config.UnsupportedWriteConsistencies = nil
+	for _, cl := range unsupported {
+		config.UnsupportedWriteConsistencies = append(config.UnsupportedWriteConsistencies, clWrapper{cl})
+	}
+	config.UnsupportedWriteConsistencyOverride = clWrapper{override}
+}
